@@ -74,6 +74,26 @@ def gen_cases(ctx):
         dicts = lodgen.gen_dicts(rng)
         k = rng.choice([1, 1, 2, 3, 4, 6])
         cases.append({"op": "chain", "dicts": dicts, "steps": [gen_step(rng, len(dicts)) for _ in range(k)]})
+    # the same call again later in the chain (same arguments), with steps in between that change order,
+    # membership or the values of the keys: whatever the first call remembered must not be reused
+    for _ in range(n // 5):
+        dicts = lodgen.gen_dicts(rng)
+        while True:
+            first = gen_step(rng, len(dicts))
+            if first["m"] in ("sort", "unique", "filter_kv", "filter_out_kv", "select", "head", "tail", "fill"):
+                break
+        if rng.random() < 0.7:
+            first = {"m": "sort", "keys": [[k, rng.choice([1, -1])] for k in rng.sample(lodgen.COMMON, rng.choice([1, 2]))]}
+        between = []
+        for _ in range(rng.choice([1, 1, 2])):
+            while True:
+                st = gen_step(rng, len(dicts))
+                if st["m"] in ("append", "extend", "insert", "add", "mul", "reverse", "modify", "modify_if", "sort", "rename"):
+                    break
+            if st["m"] in ("modify", "modify_if"):
+                st["key"] = "a"
+            between.append(st)
+        cases.append({"op": "chain", "dicts": dicts, "steps": [first] + between + [copy.deepcopy(first)]})
     if ctx.tier == "thorough":
         for ln in range(0, 5):
             dicts = [{"a": i % 2, "b": "x"} for i in range(ln)]
